@@ -4,6 +4,7 @@
   either delivered to it by a `vote` event or signed by itself.
 -/
 import Goloop.Proofs.C01G1
+import Goloop.Proofs.C01Abs
 import Mathlib.Data.List.Nodup
 import Mathlib.Data.List.Perm.Subperm
 namespace Goloop.C01
@@ -114,4 +115,662 @@ theorem countFor_le (n : Nat) (vs : VoteSet) (b : Option Blk) (p : Nat → Bool)
     obtain ⟨e, ⟨he, hb⟩, rfl⟩ := hi
     exact hp e he (by simpa using hb)
 
+
+/-! ### height vote sets -/
+
+theorem lookup_filter_key {α β : Type} [BEq α] [LawfulBEq α] (l : List (α × β)) (q : α → Bool) (k : α) :
+    (l.filter (fun e => q e.1)).lookup k = if q k then l.lookup k else none := by
+  induction l with
+  | nil => simp
+  | cons e t ih =>
+    obtain ⟨a, b⟩ := e
+    simp only [List.filter_cons]
+    by_cases hqa : q a
+    · simp only [hqa, if_true, List.lookup_cons]
+      by_cases hk : k == a
+      · have : k = a := by simpa using hk
+        subst this; simp [hqa]
+      · simp only [hk]; exact ih
+    · simp only [hqa, Bool.false_eq_true, if_false, List.lookup_cons]
+      rw [ih]
+      by_cases hk : k == a
+      · have : k = a := by simpa using hk
+        subst this; simp [hqa]
+      · simp [hk]
+
+theorem votesFor_nil (r : Nat) (t : VType) : votesFor [] r t = {} := rfl
+
+theorem wf_empty (n : Nat) : VoteSet.WF n {} := ⟨by simp, by intro e he; simp at he⟩
+
+theorem votesFor_hvsPut (h : HVS) (r : Nat) (t : VType) (vs : VoteSet) (r' : Nat) (t' : VType) :
+    votesFor (hvsPut h r t vs) r' t' = if (r', t') = (r, t) then vs else votesFor h r' t' := by
+  unfold votesFor hvsPut
+  simp only [List.lookup_cons]
+  by_cases hk : (r', t') = (r, t)
+  · simp [hk]
+  · have hb : ((r', t') == (r, t)) = false := by simpa using hk
+    simp only [hb, hk, if_false]
+    rw [lookup_filter_key h (fun k => k != (r, t)) (r', t')]
+    simp [hk]
+
+theorem votesFor_removeLower (h : HVS) (lo ex : Int) (r : Nat) (t : VType) :
+    votesFor (removeLowerRoundExcept h lo ex) r t = votesFor h r t ∨
+    votesFor (removeLowerRoundExcept h lo ex) r t = {} := by
+  unfold votesFor removeLowerRoundExcept
+  rw [lookup_filter_key h (fun k => !(decide ((k.1 : Int) < lo) && decide ((k.1 : Int) ≠ ex))) (r, t)]
+  split
+  · left; rfl
+  · right; rfl
+
+/-! ### the G2 invariant -/
+
+/-- a vote the machine knows of: delivered by an event (`L`) or signed by itself -/
+def Known (L : List VoteRec) (sent : List Msg) (v : VoteRec) : Prop := v ∈ L ∨ Msg.vote v ∈ sent
+
+instance (L : List VoteRec) (sent : List Msg) (v : VoteRec) : Decidable (Known L sent v) := by
+  unfold Known; infer_instance
+
+/-- +2/3 distinct validators whose prevote (h, r, b) the machine knows of -/
+def polkaKnown (L : List VoteRec) (n : Nat) (sent : List Msg) (h r : Nat) (b : Blk) : Prop :=
+  (List.range n).countP (fun i => decide (Known L sent ⟨i, h, .prevote, r, some b⟩)) > n * 2 / 3
+
+structure H2 (L : List VoteRec) (s : S) : Prop where
+  hv : ∀ r t, (votesFor s.hvs r t).WF s.n ∧
+        ∀ e ∈ (votesFor s.hvs r t).votes, Known L (sentOf s.eff) ⟨e.1, s.height, t, r, e.2⟩
+  g2 : ∀ v b, Msg.vote v ∈ sentOf s.eff → v.typ = .precommit → v.val = some b →
+        polkaKnown L s.n (sentOf s.eff) v.height v.round b
+
+/-- the fields H2 depends on -/
+def gproj (s : S) : Nat × Nat × HVS × List Msg := (s.n, s.height, s.hvs, sentOf s.eff)
+
+theorem h2_of_gproj_eq {L : List VoteRec} {s s' : S} (h : gproj s' = gproj s) (hh : H2 L s) : H2 L s' := by
+  unfold gproj at h
+  simp only [Prod.mk.injEq] at h
+  obtain ⟨h1, h2, h3, h4⟩ := h
+  exact ⟨by rw [h1, h2, h3, h4]; exact hh.hv, by rw [h1, h4]; exact hh.g2⟩
+
+theorem known_mono {L : List VoteRec} {sent : List Msg} (m : Msg) {v : VoteRec} (h : Known L sent v) :
+    Known L (sent ++ [m]) v := by
+  rcases h with h | h
+  · exact Or.inl h
+  · exact Or.inr (List.mem_append_left _ h)
+
+theorem polkaKnown_mono {L : List VoteRec} {n : Nat} {sent : List Msg} (m : Msg) {h r : Nat} {b : Blk}
+    (hp : polkaKnown L n sent h r b) : polkaKnown L n (sent ++ [m]) h r b := by
+  unfold polkaKnown at *
+  have := countP_mono_imp (List.range n)
+    (fun i => decide (Known L sent ⟨i, h, .prevote, r, some b⟩))
+    (fun i => decide (Known L (sent ++ [m]) ⟨i, h, .prevote, r, some b⟩))
+    (by intro x hx; simp only [decide_eq_true_eq] at hx ⊢; exact known_mono m hx)
+  omega
+
+
+section
+variable {L : List VoteRec}
+
+theorem h2_rfs (s : S) (st : Nat) (hh : H2 L s) : H2 L (s.resetForNewStep st) := by
+  apply h2_of_gproj_eq _ hh
+  unfold S.resetForNewStep S.beginStep S.endStep; simp only []; split <;> rfl
+
+theorem h2_stuck (s : S) (hh : H2 L s) : H2 L { s with stuck := true } := h2_of_gproj_eq (s := s) rfl hh
+
+theorem h2_filter (s : S) (lo ex : Int) (hh : H2 L s) :
+    H2 L { s with hvs := removeLowerRoundExcept s.hvs lo ex } := by
+  refine ⟨?_, hh.g2⟩
+  intro r t
+  show (votesFor (removeLowerRoundExcept s.hvs lo ex) r t).WF s.n ∧ _
+  rcases votesFor_removeLower s.hvs lo ex r t with h | h
+  · show (votesFor (removeLowerRoundExcept s.hvs lo ex) r t).WF s.n ∧
+      ∀ e ∈ (votesFor (removeLowerRoundExcept s.hvs lo ex) r t).votes, Known L (sentOf s.eff) ⟨e.1, s.height, t, r, e.2⟩
+    rw [h]; exact hh.hv r t
+  · show (votesFor (removeLowerRoundExcept s.hvs lo ex) r t).WF s.n ∧
+      ∀ e ∈ (votesFor (removeLowerRoundExcept s.hvs lo ex) r t).votes, Known L (sentOf s.eff) ⟨e.1, s.height, t, r, e.2⟩
+    rw [h]; exact ⟨wf_empty _, by intro e he; simp at he⟩
+
+theorem h2_rfr (s : S) (r : Nat) (hh : H2 L s) : H2 L (s.resetForNewRound r) := by
+  have h1 := h2_filter s ((r : Int) - 1) s.lockedRound hh
+  apply h2_of_gproj_eq _ h1
+  unfold S.resetForNewRound S.beginStep S.resetRound_ S.endStep; simp only []; split <;> rfl
+
+theorem h2_rfh (s : S) (h : Nat) (hh : H2 L s) : H2 L (s.resetForNewHeight h) := by
+  have h1 : H2 L { s with height := h, hvs := [] } := by
+    refine ⟨?_, hh.g2⟩
+    intro r t
+    exact ⟨wf_empty _, by intro e he; simp [votesFor] at he⟩
+  apply h2_of_gproj_eq _ h1
+  unfold S.resetForNewHeight S.beginStep S.resetRound_ S.endStep removeLowerRoundExcept
+  simp only []; split <;> rfl
+
+theorem h2_emit (s : S) (e : Eff) (he : ∀ m, e ≠ .send m) (hh : H2 L s) : H2 L (s.emit e) := by
+  apply h2_of_gproj_eq _ hh
+  unfold gproj S.emit
+  simp only [sentOf_append]
+  cases e <;> simp [sentOf] at he ⊢
+
+theorem h2_send (s : S) (m : Msg) (hh : H2 L s)
+    (hm : ∀ v b, m = .vote v → v.typ = .precommit → v.val = some b →
+      polkaKnown L s.n (sentOf s.eff ++ [m]) v.height v.round b) : H2 L (s.emit (.send m)) := by
+  have hs : sentOf (s.emit (.send m)).eff = sentOf s.eff ++ [m] := by simp
+  refine ⟨?_, ?_⟩
+  · intro r t
+    rw [hs]
+    exact ⟨(hh.hv r t).1, fun e he => known_mono m ((hh.hv r t).2 e he)⟩
+  · intro v b hv ht hval
+    rw [hs] at hv ⊢
+    rcases List.mem_append.mp hv with h | h
+    · exact polkaKnown_mono m (hh.g2 v b h ht hval)
+    · simp at h; exact hm v b h.symm ht hval
+
+theorem h2_hvsAdd (s : S) (m : VoteRec) (hh : H2 L s) (hlt : m.signer < s.n) (hht : m.height = s.height)
+    (hk : Known L (sentOf s.eff) m) : H2 L (s.hvsAdd m).2 := by
+  unfold S.hvsAdd
+  simp only []
+  split
+  · refine ⟨?_, hh.g2⟩
+    intro r t
+    show (votesFor (hvsPut s.hvs m.round m.typ _) r t).WF s.n ∧ ∀ e ∈ (votesFor (hvsPut s.hvs m.round m.typ _) r t).votes, _
+    rw [votesFor_hvsPut]
+    split
+    · rename_i heq
+      simp only [Prod.mk.injEq] at heq
+      obtain ⟨rfl, rfl⟩ := heq
+      refine ⟨VoteSet.add_wf _ _ _ _ (hh.hv _ _).1 hlt, ?_⟩
+      intro e he
+      rcases VoteSet.add_mem _ _ _ _ e he with h | h
+      · exact (hh.hv _ _).2 e h
+      · subst h
+        have : (⟨m.signer, s.height, m.typ, m.round, m.val⟩ : VoteRec) = m := by
+          cases m; simp at hht; subst hht; rfl
+        show Known L (sentOf s.eff) ⟨m.signer, s.height, m.typ, m.round, m.val⟩
+        rw [this]; exact hk
+    · exact hh.hv r t
+  · exact hh
+
+/-- the precondition under which `sendVote` may sign a non-nil precommit -/
+def PC (s : S) (t : VType) (v : Option Blk) : Prop :=
+  t = .precommit → ∀ b, v = some b → (votesFor s.hvs s.round .prevote).decision s.n = some (some b)
+
+structure IH2 (L : List VoteRec) (f : Nat) : Prop where
+  recvVote : ∀ s m, H2 L s → Known L (sentOf s.eff) m → H2 L (recvVote f s m)
+  sendVote : ∀ s t v, H2 L s → PC s t v → H2 L (sendVote f s t v)
+  handlePrevote : ∀ s mr, H2 L s → H2 L (handlePrevote f s mr)
+  handlePrecommit : ∀ s mr, H2 L s → H2 L (handlePrecommit f s mr)
+  enterPropose : ∀ s, H2 L s → H2 L (enterPropose f s)
+  enterPrevote : ∀ s, H2 L s → H2 L (enterPrevote f s)
+  enterPrevoteWait : ∀ s, H2 L s → H2 L (enterPrevoteWait f s)
+  enterPrecommit : ∀ s, H2 L s → H2 L (enterPrecommit f s)
+  enterPrecommitWait : ∀ s, H2 L s → H2 L (enterPrecommitWait f s)
+  enterCommit : ∀ s b r, H2 L s → H2 L (enterCommit f s b r)
+  commitAndEnterNewHeight : ∀ s, H2 L s → H2 L (commitAndEnterNewHeight f s)
+  enterNewHeight : ∀ s, H2 L s → H2 L (enterNewHeight f s)
+  enterNewRound : ∀ s, H2 L s → H2 L (enterNewRound f s)
+
+theorem ih2_zero : IH2 L 0 := by
+  constructor
+  · intro s m h _; unfold Goloop.C01.recvVote; exact h2_stuck _ h
+  · intro s t v h _; unfold Goloop.C01.sendVote; exact h2_stuck _ h
+  · intro s m h; unfold Goloop.C01.handlePrevote; exact h2_stuck _ h
+  · intro s m h; unfold Goloop.C01.handlePrecommit; exact h2_stuck _ h
+  · intro s h; unfold Goloop.C01.enterPropose; exact h2_stuck _ h
+  · intro s h; unfold Goloop.C01.enterPrevote; exact h2_stuck _ h
+  · intro s h; unfold Goloop.C01.enterPrevoteWait; exact h2_stuck _ h
+  · intro s h; unfold Goloop.C01.enterPrecommit; exact h2_stuck _ h
+  · intro s h; unfold Goloop.C01.enterPrecommitWait; exact h2_stuck _ h
+  · intro s b r h; unfold Goloop.C01.enterCommit; exact h2_stuck _ h
+  · intro s h; unfold Goloop.C01.commitAndEnterNewHeight; exact h2_stuck _ h
+  · intro s h; unfold Goloop.C01.enterNewHeight; exact h2_stuck _ h
+  · intro s h; unfold Goloop.C01.enterNewRound; exact h2_stuck _ h
+
+theorem s2_recvVote (f : Nat) (ih : IH2 L f) (s : S) (m : VoteRec) (hh : H2 L s)
+    (hk : Known L (sentOf s.eff) m) : H2 L (recvVote (f+1) s m) := by
+  unfold Goloop.C01.recvVote
+  split
+  · exact hh
+  split
+  · exact hh
+  rename_i hht
+  split
+  · exact hh
+  rename_i hlt
+  have hh' : H2 L (s.hvsAdd m).2 :=
+    h2_hvsAdd s m hh (by omega) (by simpa using hht) hk
+  generalize s.hvsAdd m = pr at hh' ⊢
+  obtain ⟨added, s'⟩ := pr
+  simp only [] at hh' ⊢
+  split
+  · exact hh'
+  split
+  · exact hh'
+  split
+  · exact ih.handlePrevote _ _ hh'
+  · exact ih.handlePrecommit _ _ hh'
+
+theorem s2_sendVote (f : Nat) (ih : IH2 L f) (s : S) (t : VType) (v : Option Blk) (hh : H2 L s)
+    (hpc : PC s t v) : H2 L (sendVote (f+1) s t v) := by
+  unfold Goloop.C01.sendVote
+  split
+  · exact hh
+  split
+  · exact hh
+  simp only []
+  have h1 := h2_emit s (.write .round (.msg (.vote ⟨s.me, s.height, t, s.round, v⟩))) (by intro m; simp) hh
+  have h2 := h2_emit _ (.sync .round) (by intro m; simp) h1
+  have h3 : H2 L (((s.emit (.write .round (.msg (.vote ⟨s.me, s.height, t, s.round, v⟩)))).emit (.sync .round)).emit
+      (.send (.vote ⟨s.me, s.height, t, s.round, v⟩))) := by
+    apply h2_send _ _ h2
+    intro v' b hm ht hval
+    cases hm
+    simp only [] at ht hval
+    have hd := hpc ht b hval
+    have hcnt := decision_count _ _ _ hd
+    show polkaKnown L s.n _ s.height s.round b
+    unfold polkaKnown
+    refine Nat.lt_of_lt_of_le hcnt (countFor_le s.n _ (some b) _ (hh.hv _ _).1 ?_)
+    intro e he heq
+    simp only [decide_eq_true_eq]
+    have := (hh.hv s.round .prevote).2 e he
+    rw [heq] at this
+    apply known_mono
+    simpa using this
+  apply ih.recvVote _ _ h3
+  right
+  simp
+
+
+theorem gproj_prevoteDecision (s : S) (mr : Nat) (d : Option (Option Blk)) :
+    gproj (s.prevoteDecision mr d) = gproj s := by
+  unfold S.prevoteDecision S.unlock
+  cases d with
+  | none => rfl
+  | some psid =>
+    cases psid with
+    | none => simp only []; split <;> rfl
+    | some b => simp only []; split <;> split <;> rfl
+
+theorem s2_handlePrevote (f : Nat) (ih : IH2 L f) (s : S) (mr : Nat) (hh : H2 L s) :
+    H2 L (handlePrevote (f+1) s mr) := by
+  unfold Goloop.C01.handlePrevote
+  split
+  · exact hh
+  split
+  · exact hh
+  simp only []
+  have hh' : H2 L (s.prevoteDecision mr ((votesFor s.hvs mr .prevote).decision s.n)) :=
+    h2_of_gproj_eq (gproj_prevoteDecision _ _ _) hh
+  generalize s.prevoteDecision mr ((votesFor s.hvs mr .prevote).decision s.n) = s1 at hh' ⊢
+  split
+  · exact ih.enterPrevote _ hh'
+  split
+  · exact ih.enterPrevote _ hh'
+  split
+  · exact ih.enterPrevoteWait _ hh'
+  split
+  · split
+    · exact ih.enterPrecommit _ hh'
+    · exact hh'
+  split
+  · exact ih.enterPrevote _ (h2_rfr _ _ hh')
+  · exact hh'
+
+theorem s2_handlePrecommit (f : Nat) (ih : IH2 L f) (s : S) (mr : Nat) (hh : H2 L s) :
+    H2 L (handlePrecommit (f+1) s mr) := by
+  unfold Goloop.C01.handlePrecommit
+  split
+  · exact hh
+  simp only []
+  split
+  · split
+    · exact ih.enterCommit _ _ _ hh
+    · exact hh
+  split
+  · exact ih.enterPrecommit _ hh
+  split
+  · exact ih.enterPrecommitWait _ hh
+  split
+  · split
+    · exact ih.enterCommit _ _ _ hh
+    · exact ih.enterNewRound _ hh
+    · exact hh
+  split
+  · exact ih.enterPrecommit _ (h2_rfr _ _ hh)
+  · exact hh
+
+theorem s2_enterNewRound (f : Nat) (ih : IH2 L f) (s : S) (hh : H2 L s) : H2 L (enterNewRound (f+1) s) := by
+  unfold Goloop.C01.enterNewRound
+  split
+  · exact hh
+  exact ih.enterPropose _ (h2_rfr _ _ hh)
+
+theorem s2_enterNewHeight (f : Nat) (ih : IH2 L f) (s : S) (hh : H2 L s) : H2 L (enterNewHeight (f+1) s) := by
+  unfold Goloop.C01.enterNewHeight
+  split
+  · exact hh
+  exact ih.enterPropose _ (h2_rfs _ _ (h2_rfh _ _ hh))
+
+theorem s2_commitAndEnterNewHeight (f : Nat) (ih : IH2 L f) (s : S) (hh : H2 L s) :
+    H2 L (commitAndEnterNewHeight (f+1) s) := by
+  unfold Goloop.C01.commitAndEnterNewHeight
+  split
+  · exact hh
+  split
+  · split
+    · exact h2_of_gproj_eq (s := s) rfl hh
+    · exact ih.enterNewHeight _
+        (h2_of_gproj_eq (s := s.emit (.finalize s.height _)) rfl (h2_emit _ _ (by intro m; simp) hh))
+  · exact h2_stuck _ hh
+
+theorem s2_enterCommit (f : Nat) (ih : IH2 L f) (s : S) (b r : Nat) (hh : H2 L s) :
+    H2 L (enterCommit (f+1) s b r) := by
+  unfold Goloop.C01.enterCommit
+  split
+  · exact hh
+  simp only []
+  have h1 := h2_rfs s stCommit hh
+  generalize s.resetForNewStep stCommit = s1 at h1 ⊢
+  have h2 : H2 L ({ s1 with commitRound := (r : Int) }) := h2_of_gproj_eq (s := s1) rfl h1
+  have h3 := h2_emit _ (.write .commit (.voteList (voteListOf { s1 with commitRound := (r : Int) } r .precommit))) (by intro m; simp) h2
+  have h4 := h2_emit _ (.sync .commit) (by intro m; simp) h3
+  generalize (({ s1 with commitRound := (r : Int) }.emit (.write .commit (.voteList (voteListOf { s1 with commitRound := (r : Int) } r .precommit)))).emit (.sync .commit)) = s2 at h4 ⊢
+  split
+  · split
+    · exact ih.commitAndEnterNewHeight _ (h2_of_gproj_eq (s := s2) rfl h4)
+    · exact h2_of_gproj_eq (s := s2) rfl h4
+  · split
+    · exact ih.commitAndEnterNewHeight _ (h2_of_gproj_eq (s := s2) rfl h4)
+    · exact h2_of_gproj_eq (s := s2) rfl h4
+
+theorem s2_enterPrecommitWait (f : Nat) (ih : IH2 L f) (s : S) (hh : H2 L s) :
+    H2 L (enterPrecommitWait (f+1) s) := by
+  unfold Goloop.C01.enterPrecommitWait
+  split
+  · exact hh
+  simp only []
+  have h1 := h2_rfs s stPrecommitWait hh
+  generalize s.resetForNewStep stPrecommitWait = s1 at h1 ⊢
+  have h2 := h2_emit s1 (.write .round (.voteList (voteListOf s1 s1.round .precommit))) (by intro m; simp) h1
+  generalize (s1.emit (.write .round (.voteList (voteListOf s1 s1.round .precommit)))) = s2 at h2 ⊢
+  split
+  · exact ih.enterCommit _ _ _ h2
+  · exact ih.enterNewRound _ h2
+  · exact h2_of_gproj_eq (s := s2) rfl h2
+
+theorem s2_enterPrevoteWait (f : Nat) (ih : IH2 L f) (s : S) (hh : H2 L s) :
+    H2 L (enterPrevoteWait (f+1) s) := by
+  unfold Goloop.C01.enterPrevoteWait
+  split
+  · exact hh
+  simp only []
+  have h1 := h2_rfs s stPrevoteWait hh
+  generalize s.resetForNewStep stPrevoteWait = s1 at h1 ⊢
+  have h2 := h2_emit s1 (.write .round (.voteList (voteListOf s1 s1.round .prevote))) (by intro m; simp) h1
+  generalize (s1.emit (.write .round (.voteList (voteListOf s1 s1.round .prevote)))) = s2 at h2 ⊢
+  split
+  · exact ih.enterPrecommit _ h2
+  · exact h2_of_gproj_eq (s := s2) rfl h2
+
+theorem h2_sendProposal (s : S) (b : Blk) (pol : Int) (hh : H2 L s) : H2 L (s.sendProposal b pol) := by
+  unfold S.sendProposal
+  split
+  · exact hh
+  have h1 := h2_emit s (.write .round (.msg (.proposal s.me s.height s.round b pol))) (by intro m; simp) hh
+  have h2 := h2_emit _ (.sync .round) (by intro m; simp) h1
+  exact h2_send _ _ h2 (by intro v b' hm; cases hm)
+
+theorem s2_enterPropose (f : Nat) (ih : IH2 L f) (s : S) (hh : H2 L s) : H2 L (enterPropose (f+1) s) := by
+  unfold Goloop.C01.enterPropose
+  split
+  · exact hh
+  simp only []
+  have h1 := h2_rfs s stPropose hh
+  generalize s.resetForNewStep stPropose = s1 at h1 ⊢
+  have h2 : H2 L { s1 with timer := true } := h2_of_gproj_eq (s := s1) rfl h1
+  split
+  · split
+    · exact h2_of_gproj_eq (s := S.sendProposal { s1 with timer := true } _ _) rfl (h2_sendProposal _ _ _ h2)
+    · exact h2_of_gproj_eq (s := s1) rfl h1
+  · split
+    · exact ih.enterPrevote _ h2
+    · exact h2
+
+theorem t2_prevote (f : Nat) (ih : IH2 L f) (x : S) (hx : H2 L x) :
+    H2 L (if x.step == stPrevote then
+            if (votesFor x.hvs x.round .prevote).hasOverTwoThirds x.n then enterPrevoteWait f x else x
+          else x) := by
+  split
+  · split
+    · exact ih.enterPrevoteWait _ hx
+    · exact hx
+  · exact hx
+
+theorem t2_precommit (f : Nat) (ih : IH2 L f) (x : S) (hx : H2 L x) :
+    H2 L (if x.step == stPrecommit then
+            if (votesFor x.hvs x.round .precommit).hasOverTwoThirds x.n then enterPrecommitWait f x else x
+          else x) := by
+  split
+  · split
+    · exact ih.enterPrecommitWait _ hx
+    · exact hx
+  · exact hx
+
+theorem pc_prevote (s : S) (v : Option Blk) : PC s .prevote v := by intro h; cases h
+theorem pc_nil (s : S) (t : VType) : PC s t none := by intro _ b h; cases h
+
+theorem s2_enterPrevote (f : Nat) (ih : IH2 L f) (s : S) (hh : H2 L s) : H2 L (enterPrevote (f+1) s) := by
+  unfold Goloop.C01.enterPrevote
+  split
+  · exact hh
+  simp only []
+  have h1 := h2_rfs s stPrevote hh
+  generalize s.resetForNewStep stPrevote = s1 at h1 ⊢
+  apply t2_prevote f ih
+  split
+  · exact ih.sendVote _ _ _ h1 (pc_prevote _ _)
+  · split
+    · split
+      · exact ih.sendVote _ _ _ h1 (pc_prevote _ _)
+      · split
+        · exact ih.sendVote _ _ _ h1 (pc_prevote _ _)
+        · exact h2_of_gproj_eq (s := s1) rfl h1
+    · exact ih.sendVote _ _ _ h1 (pc_prevote _ _)
+
+theorem s2_enterPrecommit (f : Nat) (ih : IH2 L f) (s : S) (hh : H2 L s) : H2 L (enterPrecommit (f+1) s) := by
+  unfold Goloop.C01.enterPrecommit
+  split
+  · exact hh
+  simp only []
+  have h1 := h2_rfs s stPrecommit hh
+  generalize s.resetForNewStep stPrecommit = s1 at h1 ⊢
+  apply t2_precommit f ih
+  split
+  · exact ih.sendVote _ _ _ h1 (pc_nil _ _)
+  · exact ih.sendVote _ _ _ (h2_of_gproj_eq (s := s1) rfl h1) (pc_nil _ _)
+  · rename_i b hd
+    have hpc : ∀ s' : S, s'.hvs = s1.hvs → s'.round = s1.round → s'.n = s1.n → PC s' .precommit (some b) := by
+      intro s' e1 e2 e3 _ b' hb'
+      cases hb'
+      rw [e1, e2, e3]; exact hd
+    split
+    · exact ih.sendVote _ _ _ (h2_of_gproj_eq (s := s1) rfl h1) (hpc _ rfl rfl rfl)
+    · split
+      · apply ih.sendVote
+        · apply h2_emit _ _ (by intro m; simp)
+          apply h2_emit _ _ (by intro m; simp)
+          apply h2_emit _ _ (by intro m; simp)
+          exact h2_of_gproj_eq (s := s1) rfl h1
+        · exact hpc _ rfl rfl rfl
+      · exact ih.sendVote _ _ _ (h2_of_gproj_eq (s := s1) rfl h1) (pc_nil _ _)
+
+theorem ih2_all (L : List VoteRec) : ∀ f, IH2 L f := by
+  intro f
+  induction f with
+  | zero => exact ih2_zero
+  | succ f ih =>
+    exact ⟨s2_recvVote f ih, s2_sendVote f ih, s2_handlePrevote f ih, s2_handlePrecommit f ih,
+      s2_enterPropose f ih, s2_enterPrevote f ih, s2_enterPrevoteWait f ih, s2_enterPrecommit f ih,
+      s2_enterPrecommitWait f ih, s2_enterCommit f ih, s2_commitAndEnterNewHeight f ih,
+      s2_enterNewHeight f ih, s2_enterNewRound f ih⟩
+
+
+/-! ### events -/
+
+theorem e2_recvProposal (s : S) (sg h r : Nat) (b : Blk) (pol : Int) (hh : H2 L s) :
+    H2 L (recvProposal s sg h r b pol) := by
+  unfold recvProposal
+  split
+  · exact hh
+  split
+  · exact hh
+  split
+  · exact hh
+  split
+  · exact hh
+  split
+  · exact hh
+  split
+  · exact hh
+  simp only []
+  split
+  · split
+    · exact (ih2_all L _).enterPrevote _ (h2_of_gproj_eq (s := s) rfl hh)
+    · exact h2_of_gproj_eq (s := s) rfl hh
+  · split
+    · exact (ih2_all L _).enterPrevote _ (h2_of_gproj_eq (s := s) rfl hh)
+    · exact h2_of_gproj_eq (s := s) rfl hh
+
+theorem e2_recvBlockPart (s : S) (h : Nat) (b : Blk) (hh : H2 L s) : H2 L (recvBlockPart s h b) := by
+  unfold recvBlockPart
+  split
+  · exact hh
+  simp only []
+  have h1 : H2 L (if (decide (s.height ≤ h) && decide (h < s.height + 3) && !s.bpm.contains b) = true
+      then { s with bpm := s.bpm ++ [b] } else s) := by
+    split
+    · exact h2_of_gproj_eq (s := s) rfl hh
+    · exact hh
+  generalize (if (decide (s.height ≤ h) && decide (h < s.height + 3) && !s.bpm.contains b) = true
+      then { s with bpm := s.bpm ++ [b] } else s) = s1 at h1 ⊢
+  split
+  · exact h1
+  split
+  · exact h1
+  split
+  · exact h1
+  split
+  · exact (ih2_all L _).enterPrevote _ (h2_of_gproj_eq (s := s1) rfl h1)
+  split
+  · exact (ih2_all L _).commitAndEnterNewHeight _ (h2_of_gproj_eq (s := s1) rfl h1)
+  · exact h2_of_gproj_eq (s := s1) rfl h1
+
+theorem e2_recvVote (s : S) (m : VoteRec) (hh : H2 L s) (hm : m ∈ L) : H2 L (recvVoteEv s m) := by
+  unfold recvVoteEv
+  split
+  · exact hh
+  · exact (ih2_all L _).recvVote _ _ hh (Or.inl hm)
+
+theorem e2_timeout (s : S) (st : Nat) (hh : H2 L s) : H2 L (timeout s st) := by
+  unfold timeout
+  split
+  · exact hh
+  split
+  · exact (ih2_all L _).enterPrevote _ hh
+  split
+  · exact (ih2_all L _).enterPrecommit _ hh
+  split
+  · exact (ih2_all L _).enterNewRound _ hh
+  · exact hh
+
+theorem gproj_markValidated (s : S) (ib : Blk) : gproj (s.markValidated ib) = gproj s := by
+  unfold S.markValidated
+  split
+  · split <;> rfl
+  · rfl
+
+theorem e2_async (s : S) (hh : H2 L s) : H2 L (async s) := by
+  unfold async
+  split
+  · exact hh
+  have hn : H2 L { s with pend := .none } := h2_of_gproj_eq (s := s) rfl hh
+  split
+  · exact hh
+  · unfold asyncPropose
+    split
+    · exact hn
+    · exact (ih2_all L _).enterPrevote _
+        (h2_of_gproj_eq (s := S.sendProposal { s with pend := .none } _ _) rfl (h2_sendProposal _ _ _ hn))
+  · rename_i h r ib _
+    unfold asyncImport
+    split
+    · exact hn
+    have h1 : H2 L (S.markValidated { s with pend := .none } ib) :=
+      h2_of_gproj_eq (gproj_markValidated _ _) hn
+    simp only []
+    split
+    · split
+      · exact (ih2_all L _).sendVote _ _ _ h1 (pc_prevote _ _)
+      · exact h2_stuck _ h1
+    · exact h1
+  · unfold asyncCommit
+    split
+    · exact hn
+    split
+    · rename_i b v _
+      exact (ih2_all L _).enterNewHeight _
+        (h2_of_gproj_eq (s := S.emit { s with pend := .none, cur := .full b true } (.finalize s.height b)) rfl
+          (h2_emit _ _ (by intro m; simp) (h2_of_gproj_eq (s := s) rfl hh)))
+    · exact h2_stuck _ hn
+
+theorem h2_of_nosent (s : S) (hs : sentOf s.eff = []) (hv : s.hvs = []) : H2 L s := by
+  refine ⟨?_, ?_⟩
+  · intro r t; rw [hv]; exact ⟨wf_empty _, by intro e he; simp [votesFor] at he⟩
+  · intro v b hm; rw [hs] at hm; cases hm
+
+theorem e2_start_fresh (s : S) (he : s.eff = []) (hns : s.started = false) : H2 L (start s) := by
+  unfold start
+  rw [if_neg (by simp [hns])]
+  simp only [he]
+  have hk := rfh_keep ({ n := s.n, me := s.me, dbHeight := s.dbHeight, eff := [], bpm := [], stuck := s.stuck } : S)
+    (s.dbHeight + 1)
+  have hhv : (({ n := s.n, me := s.me, dbHeight := s.dbHeight, eff := [], bpm := [], stuck := s.stuck } : S).resetForNewHeight
+    (s.dbHeight + 1)).hvs = [] := by
+    unfold S.resetForNewHeight S.beginStep S.resetRound_ S.endStep removeLowerRoundExcept
+    simp only []; split <;> rfl
+  generalize (({ n := s.n, me := s.me, dbHeight := s.dbHeight, eff := [], bpm := [], stuck := s.stuck } : S).resetForNewHeight
+    (s.dbHeight + 1)) = s1 at hk hhv ⊢
+  have he1 : s1.eff = [] := hk.1
+  simp only [he1, walDurable_nil, applyRoundWAL_nil, applyLockWAL_nil, applyCommitWAL_nil]
+  have hc : ∀ x : S, sentOf x.eff = [] → x.hvs = [] → H2 L x := h2_of_nosent
+  split
+  · exact (ih2_all L _).enterPropose _ (h2_rfs _ _ (hc _ rfl hhv))
+  split
+  · exact (ih2_all L _).enterPropose _ (hc _ rfl hhv)
+  split
+  · exact (ih2_all L _).enterPrevote _ (hc _ rfl hhv)
+  split
+  · split
+    · exact (ih2_all L _).enterPrevoteWait _ (hc _ rfl hhv)
+    · exact hc _ rfl hhv
+  split
+  · split
+    · exact (ih2_all L _).enterPrecommitWait _ (hc _ rfl hhv)
+    · exact hc _ rfl hhv
+  · exact hc _ rfl hhv
+
+theorem run_h2 (s : S) (evs : List Event) (hn : ∀ e ∈ evs, e.noCrash)
+    (hl : ∀ m, Event.vote m ∈ evs → m ∈ L) (hh : H2 L s) : H2 L (run s evs) := by
+  induction evs generalizing s with
+  | nil => exact hh
+  | cons e t ih =>
+    unfold run
+    apply ih _ (fun e' he' => hn e' (List.mem_cons_of_mem _ he')) (fun m hm => hl m (List.mem_cons_of_mem _ hm))
+    have hne := hn e List.mem_cons_self
+    cases e with
+    | start => exact absurd hne (by simp [Event.noCrash])
+    | crash c k => exact absurd hne (by simp [Event.noCrash])
+    | proposal sg h r b pol => exact e2_recvProposal s sg h r b pol hh
+    | blockPart h b => exact e2_recvBlockPart s h b hh
+    | vote m => exact e2_recvVote s m hh (hl m List.mem_cons_self)
+    | timeout st => exact e2_timeout s st hh
+    | async => exact e2_async s hh
+
+end
 end Goloop.C01
